@@ -5,6 +5,8 @@ import EudoxiaModel.Props.C17
 import EudoxiaModel.Props.C18
 import EudoxiaModel.Proofs.Store
 import EudoxiaModel.Proofs.Built
+import EudoxiaModel.Proofs.Progress
+import EudoxiaModel.Proofs.NaiveSafe
 /-! # C08 — shipped schedulers decide admissibly (per-round theorems; the run-to-the-end statement is checked on traces, see DESIGN.md)
 
 `partial`: what is proved here is, for every world and queue state, that one round of `priority` / `priority-pool` asks each pool for no more
@@ -468,5 +470,37 @@ theorem priority_round_suspensions_accepted (w w' : World) (st st' : St) (res : 
   obtain ⟨c, hc, e1, _, e3⟩ := (C12.round_preemption w w' st st' res newP dec h).2.2 x hx1
   rw [hp] at hc
   exact ⟨c, hc, e1, e3⟩
+
+
+/-! ### execution never gets stuck
+
+The executor-side assertions that could fire in the middle of a tick are the refused state changes (`transition`) and the exhausted tick
+generator.  For *consistent* containers — operators in the states their position implies (head RUNNING once started, the rest ASSIGNED),
+every parent COMPLETED or earlier in the same container, something left to run — none of them can fire.  Consistency is kept by every phase. -/
+
+/-- **`Container.tick` never raises on a consistent container**, and the container stays consistent until it is finished -/
+theorem container_tick_never_raises (cfg : Cfg) (w : Store) (c : Ctr) (cons : Int) (rd : CtrReady cfg w c) (hfc : c.completed = false → c.frozen = false) :
+    ∃ w' c' cons', c.tick cfg w cons = .ok (w', c', cons') ∧ (c'.completed = false → CtrReady cfg w' c') :=
+  tick_succeeds cfg w c cons rd hfc
+
+/-- killing (OOM) never raises: ASSIGNED → FAILED and RUNNING → FAILED are arrows of the table -/
+theorem container_kill_never_raises (cfg : Cfg) (w : Store) (c : Ctr) (cons : Int) (rd : CtrReady cfg w c) : ∃ w' c' cons', c.kill w cons = .ok (w', c', cons') :=
+  kill_succeeds cfg w c cons rd
+
+/-- suspending at an operator boundary never raises -/
+theorem container_suspend_never_raises (cfg : Cfg) (w : Store) (c : Ctr) (rd : CtrReady cfg w c) (hb : headRunning c = false) : ∃ w' c', c.suspend cfg w = .ok (w', c') :=
+  suspend_succeeds cfg w c rd hb
+
+/-- **phases 3–6 of a pool tick (write-outs, container ticks, both steps of the OOM killer, collection) never raise on a consistent pool**,
+and leave it consistent: by induction, no later tick raises there either as long as the commands it is given pass the gate checks -/
+theorem pool_run_never_raises {cfg : Cfg} {w : Store} {p : Pool} {n : Nat} (pinv : PoolInv p n) (m : MemOK p) (rd : PoolReady cfg w p) :
+    ∃ w' p' res, poolRun cfg w p = .ok (w', p', res) ∧ PoolReady cfg w' p' :=
+  poolRun_succeeds pinv m rd
+
+/-- **the naive scheduler and the `eudoxia init` starter never raise**: in any world whose pipelines list existing operators without repetition,
+a round returns a decision, whatever the queue, the results and the arrivals are -/
+theorem naive_round_never_raises (multi : Bool) (w : World) (st : Naive.St) (results : List Res) (newP : List Nat) (wf : w.WFP) :
+    ∃ w' st' dec, Naive.round multi w st results newP = .ok (w', st', dec) ∧ w'.WFP :=
+  Naive.round_never_raises multi w st results newP wf
 
 end Eudoxia.C08
